@@ -3,6 +3,7 @@
 package verifsys
 
 import (
+	"encoding/binary"
 	"bufio"
 	"bytes"
 	"crypto/sha256"
@@ -572,6 +573,7 @@ func TestVerifC11(t *testing.T) {
 	c11InstallPhase(rep, routes, methods)
 	c11BrokenSessionsDB(rep, up, routes, methods)
 	c11NoLimiter(rep, up)
+	c11GLinet(rep, up, routes, methods)
 	c11Shutdown(rep, up)
 }
 
@@ -770,6 +772,122 @@ func c11BrokenSessionsDB(rep *verifkit.Report, up *sysUpstream, routes []string,
 		if r.Status != 403 && r.Status != 0 {
 			rep.Violate("unauthenticated-not-refused:session-db-unopenable", fmt.Sprintf("with an unopenable session database the server came up and %s %s without credentials answered %d", m, route, r.Status),
 				map[string]any{"route": route, "status": r.Status, "body_head": sysTail(r.Body, 200)})
+		}
+	}
+}
+
+// c11GLinet runs the binary in its GL-inet compatibility mode (--glinet), in
+// which an Admin-Token cookie naming a fresh token file /tmp/gl_token_<value>
+// counts as a credential.  Values for which no such token file exists - among
+// them values that would name other files if the path were normalised, and
+// token files that are expired, empty or too short - must be refused on every
+// protected route.
+func c11GLinet(rep *verifkit.Report, up *sysUpstream, routes []string, methods map[string]string) {
+	dir, err := os.MkdirTemp(os.Getenv("VERIF_SCRATCH"), "agh-glinet-")
+	if err != nil {
+		return
+	}
+	defer os.RemoveAll(dir)
+	in := &sysInst{Dir: dir, WebPort: verifkit.FreePort(), done: make(chan struct{})}
+	in.DNSPort = verifkit.FreePort()
+	if err = sysWriteConfig(dir, in.WebPort, in.DNSPort, sysConfOpts{UpstreamPort: up.Port}); err != nil {
+		return
+	}
+	in.LogPath = filepath.Join(dir, "agh.log")
+	lf, _ := os.Create(in.LogPath)
+	in.cmd = exec.Command(os.Getenv("VERIF_AGH_BIN"), "-w", dir, "--no-check-update", "--no-permcheck", "--glinet")
+	in.cmd.Stdout, in.cmd.Stderr = lf, lf
+	in.cmd.SysProcAttr = &syscall.SysProcAttr{Setpgid: true}
+	if err = in.cmd.Start(); err != nil {
+		rep.Inconcl("glinet phase start: " + err.Error())
+
+		return
+	}
+	go func() { in.waitErr = in.cmd.Wait(); _ = lf.Close(); close(in.done) }()
+	defer in.Kill()
+	in.client = &http.Client{Timeout: 10 * time.Second}
+	came := false
+	for i := 0; i < 150 && !in.Exited(); i++ {
+		if r := c11Raw(in.WebPort, "GET", "/control/status", map[string]string{}, ""); r.Status != 0 {
+			came = true
+
+			break
+		}
+		time.Sleep(100 * time.Millisecond)
+	}
+	if !came {
+		rep.Inconcl("glinet phase: the server did not come up")
+
+		return
+	}
+	// Files: a fresh token, an expired one, an empty one, a too short one, and
+	// a file beside the tokens whose first bytes read as a fresh date.
+	uniq := fmt.Sprintf("%d-%d", os.Getpid(), time.Now().UnixNano()%1000000)
+	date := func(t time.Time) []byte {
+		b := make([]byte, 16)
+		binary.NativeEndian.PutUint32(b, uint32(t.UTC().Unix()))
+
+		return b
+	}
+	files := map[string][]byte{
+		"/tmp/gl_token_fresh" + uniq:   date(time.Now()),
+		"/tmp/gl_token_expired" + uniq: date(time.Now().Add(-2 * time.Hour)),
+		"/tmp/gl_token_empty" + uniq:   {},
+		"/tmp/gl_token_short" + uniq:   {0xff, 0xff},
+		"/tmp/verif-gl-other-" + uniq:  date(time.Now()),
+	}
+	for f, b := range files {
+		if werr := os.WriteFile(f, b, 0o600); werr != nil {
+			rep.Inconcl("glinet phase: " + werr.Error())
+
+			return
+		}
+		defer os.Remove(f)
+	}
+	other := "verif-gl-other-" + uniq
+	values := []string{
+		"", "nosuchtoken" + uniq, "expired" + uniq, "empty" + uniq, "short" + uniq,
+		"x/../" + other, "../tmp/" + other, "./../" + other, "a/b/../../" + other, "fresh" + uniq + "/../" + other,
+		"..", ".", "Fresh" + uniq,
+	}
+	// Positive control: the fresh token opens a protected route.
+	if r := c11Raw(in.WebPort, "GET", "/control/status", map[string]string{"Cookie": "Admin-Token=fresh" + uniq}, ""); r.Status != 200 {
+		rep.Inconcl(fmt.Sprintf("glinet phase: a fresh token file is not accepted (status %d)", r.Status))
+
+		return
+	}
+	rep.Class("glinet_mode_fresh_token_accepted")
+	for _, v := range values {
+		for _, route := range routes {
+			if c11IsPublic(route) || route == "/" {
+				continue
+			}
+			m := methods[route]
+			if m == "" {
+				m = "GET"
+			}
+			hdrs := map[string]string{"Cookie": "Admin-Token=" + v}
+			body := ""
+			if m != "GET" {
+				hdrs["Content-Type"] = "application/json"
+				body = "{}"
+			}
+			r := c11Raw(in.WebPort, m, route, hdrs, body)
+			rep.Eval(true, "glinet|"+v+"|"+route)
+			rep.Class("glinet_mode_requests_with_a_value_naming_no_fresh_token")
+			if r.Status != 403 && r.Status != 302 && r.Status != 401 && r.Status != 0 {
+				kind := "no-such-token"
+				switch {
+				case strings.Contains(v, ".."):
+					kind = "value-with-dot-dot"
+				case strings.HasPrefix(v, "expired"), strings.HasPrefix(v, "empty"), strings.HasPrefix(v, "short"):
+					kind = strings.TrimSuffix(v, uniq) + "-token"
+				}
+				rep.Violate("unauthenticated-not-refused:glinet-mode:"+kind, fmt.Sprintf("in GL-inet mode %s %s with Admin-Token=%q, which names no fresh token file, answered %d", m, route, v, r.Status),
+					map[string]any{"route": route, "status": r.Status, "cookie_value": v, "body_head": sysTail(r.Body, 200)})
+
+				break
+			}
 		}
 	}
 }
